@@ -1,8 +1,8 @@
-(** C12: proofs about the VARIANT models of Model/RangeGlobVariant.v (proposed repairs fix-3, fix-4, fix-5;
-    not applied, Model/Expand.v stays the model of the code as it is). *)
+(** C12: the range finder with its context (f69a693: affixes kept; 9bedc7c: a bad operand skips the token) and the
+    glob filter on hidden directory components (7572cd1), as transcribed in Model/Expand.v. *)
 From Coq Require Import List NArith ZArith Bool Lia.
 From Cicada Require Import Base.Chars Base.Tag Base.Regex Gen.ShellRegexes Model.Expand Model.ExpandRef
-  Model.RangeGlobVariant Proofs.ExpandBasics Proofs.BraceProofs Proofs.BraceWitness.
+  Proofs.ExpandBasics Proofs.BraceProofs Proofs.BraceWitness.
 Import ListNotations.
 From Coq Require String. Import String.StringSyntax.
 Local Open Scope N_scope.
@@ -51,64 +51,10 @@ Proof.
     inversion H. subst. apply span_app in Es. exact Es.
 Qed.
 
-(* ------------------------------------------------------------------ 1: the variant finder agrees with the main one *)
-Lemma range_at_ctx_agrees s caps rest : range_at_ctx s = Some (caps, rest) -> range_at s = Some caps.
+(* ------------------------------------------------------------------ 1: the context is the text around the match *)
+Lemma range_at_ctx_text s caps post : range_at s = Some (caps, post) -> exists mid : str, s = mid ++ 125 :: post.
 Proof.
-  unfold range_at_ctx, range_at. intros H.
-  destruct (int_at s) as [[g1 r1]|]; [|discriminate].
-  destruct (strip_prefix [46; 46] r1) as [r2|]; [|discriminate].
-  destruct (int_at r2) as [[g2 r3]|]; [|discriminate].
-  destruct (strip_prefix [125] r3) as [x|] eqn:E3.
-  - apply strip_one in E3. destruct E3 as [E3 _]. rewrite E3. inversion H. reflexivity.
-  - apply strip_one_none in E3. rewrite E3.
-    destruct (strip_prefix [46; 46] r3) as [r4|]; [|discriminate].
-    destruct (span is_digit r4) as [d r5].
-    destruct (strip_prefix [125] r5) as [y|] eqn:E5; [|discriminate].
-    apply strip_one in E5. destruct E5 as [E5 _]. rewrite E5. inversion H. reflexivity.
-Qed.
-
-Lemma range_at_ctx_none s : range_at_ctx s = None -> range_at s = None.
-Proof.
-  unfold range_at_ctx, range_at. intros H.
-  destruct (int_at s) as [[g1 r1]|]; [|reflexivity].
-  destruct (strip_prefix [46; 46] r1) as [r2|]; [|reflexivity].
-  destruct (int_at r2) as [[g2 r3]|]; [|reflexivity].
-  destruct (strip_prefix [125] r3) as [x|] eqn:E3; [discriminate|].
-  apply strip_one_none in E3. rewrite E3.
-  destruct (strip_prefix [46; 46] r3) as [r4|]; [|reflexivity].
-  destruct (span is_digit r4) as [d r5].
-  destruct (strip_prefix [125] r5) as [y|] eqn:E5; [discriminate|].
-  apply strip_one_none in E5. rewrite E5. reflexivity.
-Qed.
-
-Lemma find_range_ctx_agrees s pre caps post :
-  find_range_ctx s = Some (pre, caps, post) -> find_range s = Some caps.
-Proof.
-  revert pre caps post. induction s as [|c r IH]; intros pre caps post H; cbn [find_range_ctx] in H; [discriminate|].
-  cbn [find_range]. destruct (c =? 123).
-  - destruct (range_at_ctx r) as [[caps0 post0]|] eqn:E.
-    + inversion H. subst. rewrite (range_at_ctx_agrees _ _ _ E). reflexivity.
-    + rewrite (range_at_ctx_none _ E).
-      destruct (find_range_ctx r) as [[[pre1 caps1] post1]|] eqn:Ef; [|discriminate].
-      inversion H. subst. eapply IH. reflexivity.
-  - destruct (find_range_ctx r) as [[[pre1 caps1] post1]|] eqn:Ef; [|discriminate].
-    inversion H. subst. eapply IH. reflexivity.
-Qed.
-
-Lemma find_range_ctx_none s : find_range_ctx s = None -> find_range s = None.
-Proof.
-  induction s as [|c r IH]; intros H; [reflexivity|]. cbn [find_range_ctx] in H. cbn [find_range].
-  destruct (c =? 123).
-  - destruct (range_at_ctx r) as [[caps0 post0]|] eqn:E; [discriminate|].
-    rewrite (range_at_ctx_none _ E).
-    destruct (find_range_ctx r) as [[[pre1 caps1] post1]|] eqn:Ef; [discriminate|]. apply IH. reflexivity.
-  - destruct (find_range_ctx r) as [[[pre1 caps1] post1]|] eqn:Ef; [discriminate|]. apply IH. reflexivity.
-Qed.
-
-(* ------------------------------------------------------------------ 2: the context is the text around the match *)
-Lemma range_at_ctx_text s caps post : range_at_ctx s = Some (caps, post) -> exists mid : str, s = mid ++ 125 :: post.
-Proof.
-  unfold range_at_ctx. intros H.
+  unfold range_at. intros H.
   destruct (int_at s) as [[g1 r1]|] eqn:E1; [|discriminate]. apply int_at_app in E1.
   destruct (strip_prefix [46; 46] r1) as [r2|] eqn:E2; [|discriminate]. apply strip_prefix_app in E2.
   destruct (int_at r2) as [[g2 r3]|] eqn:E3; [|discriminate]. apply int_at_app in E3.
@@ -123,26 +69,26 @@ Proof.
 Qed.
 
 Lemma find_range_ctx_text s pre caps post :
-  find_range_ctx s = Some (pre, caps, post) -> exists mid, s = pre ++ 123 :: mid ++ 125 :: post.
+  find_range s = Some (pre, caps, post) -> exists mid, s = pre ++ 123 :: mid ++ 125 :: post.
 Proof.
-  revert pre caps post. induction s as [|c r IH]; intros pre caps post H; cbn [find_range_ctx] in H; [discriminate|].
+  revert pre caps post. induction s as [|c r IH]; intros pre caps post H; cbn [find_range] in H; [discriminate|].
   destruct (c =? 123) eqn:Ec.
-  - destruct (range_at_ctx r) as [[caps0 post0]|] eqn:E.
+  - destruct (range_at r) as [[caps0 post0]|] eqn:E.
     + inversion H. subst. apply N.eqb_eq in Ec. subst c.
       destruct (range_at_ctx_text _ _ _ E) as [mid Hm]. exists mid. cbn [app]. f_equal. exact Hm.
-    + destruct (find_range_ctx r) as [[[pre1 caps1] post1]|] eqn:Ef; [|discriminate].
+    + destruct (find_range r) as [[[pre1 caps1] post1]|] eqn:Ef; [|discriminate].
       inversion H. subst. destruct (IH _ _ _ eq_refl) as [mid Hm]. exists mid. cbn [app]. f_equal. exact Hm.
-  - destruct (find_range_ctx r) as [[[pre1 caps1] post1]|] eqn:Ef; [|discriminate].
+  - destruct (find_range r) as [[[pre1 caps1] post1]|] eqn:Ef; [|discriminate].
     inversion H. subst. destruct (IH _ _ _ eq_refl) as [mid Hm]. exists mid. cbn [app]. f_equal. exact Hm.
 Qed.
 
-(* ------------------------------------------------------------------ 3: fix-4 *)
-Theorem range_sel_v_never_aborts : forall t d, range_sel_v t = Ok d -> d <> Abort.
+(* ------------------------------------------------------------------ 2: a range token never aborts the pass (9bedc7c) *)
+Theorem range_sel_never_aborts : forall t d, range_sel t = Ok d -> d <> Abort.
 Proof.
-  intros t d H. unfold range_sel_v in H.
+  intros t d H. unfold range_sel in H.
   destruct (negb (tag_is_empty (fst t)) || negb (rx_search rx_brace_range (snd t))).
   { inversion H. discriminate. }
-  destruct (find_range_ctx (snd t)) as [[[pre [[g1 g2] g4]] post]|]; [|discriminate].
+  destruct (find_range (snd t)) as [[[pre [[g1 g2] g4]] post]|]; [|discriminate].
   destruct (parse_i32 g1) as [a|]; [|inversion H; discriminate].
   destruct (parse_i32 g2) as [b|]; [|inversion H; discriminate].
   destruct (match g4 with None => Some 1%Z | Some d0 => parse_i32 d0 end) as [i0|]; [|inversion H; discriminate].
@@ -150,15 +96,15 @@ Proof.
   inversion H. discriminate.
 Qed.
 
-Theorem expand_brace_range_v_in_place : forall toks,
-  (forall t, In t toks -> exists d, range_sel_v t = Ok d) ->
-  expand_brace_range_v toks = Ok (flat_map (sel_tokens range_sel_v) toks).
+Theorem expand_brace_range_in_place : forall toks,
+  (forall t, In t toks -> exists d, range_sel t = Ok d) ->
+  expand_brace_range toks = Ok (flat_map (sel_tokens range_sel) toks).
 Proof.
-  intros toks H. unfold expand_brace_range_v. apply pass_is_flat_map. intros t Ht.
-  destruct (H t Ht) as [d Hd]. exists d. split; [exact Hd | exact (range_sel_v_never_aborts t d Hd)].
+  intros toks H. unfold expand_brace_range. apply pass_is_flat_map. intros t Ht.
+  destruct (H t Ht) as [d Hd]. exists d. split; [exact Hd | exact (range_sel_never_aborts t d Hd)].
 Qed.
 
-(* ------------------------------------------------------------------ 4: fix-3 *)
+(* ------------------------------------------------------------------ 3: the affixes are kept (f69a693) *)
 Lemma parse_i32_bounds (g : str) z : parse_i32 g = Some z -> (i32_min <= z <= i32_max)%Z.
 Proof.
   unfold parse_i32. intros H.
@@ -176,27 +122,27 @@ Qed.
 Lemma incr_max (s : Z) : (if (s <=? 1)%Z then 1%Z else s) = Z.max 1 s.
 Proof. destruct (s <=? 1)%Z eqn:E; [apply Z.leb_le in E | apply Z.leb_gt in E]; lia. Qed.
 
-Theorem range_sel_v_affixes : forall t pre g1 g2 g4 post a b s,
+Theorem range_sel_affixes : forall t pre g1 g2 g4 post a b s,
   tag_is_empty (fst t) = true -> rx_search rx_brace_range (snd t) = true ->
-  find_range_ctx (snd t) = Some (pre, (g1, g2, g4), post) ->
+  find_range (snd t) = Some (pre, (g1, g2, g4), post) ->
   parse_i32 g1 = Some a -> parse_i32 g2 = Some b ->
   (match g4 with None => Some 1%Z | Some d => parse_i32 d end) = Some s ->
-  range_sel_v t = Ok (Repl (map (fun z => retag (pre ++ z_to_dec z ++ post)) (range_ref a b s))).
+  range_sel t = Ok (Repl (map (fun z => retag (pre ++ z_to_dec z ++ post)) (range_ref a b s))).
 Proof.
-  intros t pre g1 g2 g4 post a b s Ht Hrx Hf Ha Hb Hs. unfold range_sel_v.
+  intros t pre g1 g2 g4 post a b s Ht Hrx Hf Ha Hb Hs. unfold range_sel.
   rewrite Ht, Hrx. cbn [negb orb]. rewrite Hf, Ha, Hb, Hs. cbv zeta.
   rewrite incr_max.
   rewrite (range_list_ref a b s (parse_i32_bounds _ _ Ha) (parse_i32_bounds _ _ Hb)).
   cbn [res_map]. rewrite map_map. reflexivity.
 Qed.
 
-Example range_variant_example :
-  expand_brace_range_v [(TNone, s2l "echo"); (TNone, s2l "a{1..3}b"); (TNone, s2l "{1..2}"); (TNone, s2l "{1..99999999999}")]
+Example range_example :
+  expand_brace_range [(TNone, s2l "echo"); (TNone, s2l "a{1..3}b"); (TNone, s2l "{1..2}"); (TNone, s2l "{1..99999999999}")]
   = Ok [(TNone, s2l "echo"); (TNone, s2l "a1b"); (TNone, s2l "a2b"); (TNone, s2l "a3b"); (TNone, s2l "1"); (TNone, s2l "2");
         (TNone, s2l "{1..99999999999}")].
 Proof. vm_compute. reflexivity. Qed.
 
-(* ------------------------------------------------------------------ 5: fix-5 *)
+(* ------------------------------------------------------------------ 4: hidden directory components (7572cd1) *)
 Lemma hidden_zip_false (pc : list str) : forall (pp : list str),
   hidden_zip pc pp = false ->
   forall k (comp : str), nth_error pc k = Some comp -> starts_with [46] comp = true ->
@@ -213,39 +159,37 @@ Proof.
       destruct pp as [|x pp]; [|exact IH]. cbn [tl] in IH. destruct k; exact IH.
 Qed.
 
-Theorem glob_keep_v_no_hidden_dir : forall pattern show p,
-  glob_keep_v pattern show p = true ->
+Theorem glob_keep_no_hidden_dir : forall pattern show p,
+  glob_keep pattern show p = true ->
   forall k comp, nth_error (dirs_rev p) k = Some comp -> starts_with [46] comp = true ->
   comp <> [46] -> comp <> [46; 46] ->
   starts_with [46] (nth k (dirs_rev pattern) []) = true.
 Proof.
-  intros pattern show p H k comp Hn Hs H1 H2. unfold glob_keep_v in H.
+  intros pattern show p H k comp Hn Hs H1 H2. unfold glob_keep in H.
   apply andb_prop in H. destruct H as [_ H]. apply negb_true_iff in H. unfold hidden_dir_matched in H.
   exact (hidden_zip_false _ _ H k comp Hn Hs H1 H2).
 Qed.
 
-Lemma glob_keep_v_weaker pattern show p : glob_keep_v pattern show p = true -> glob_keep show p = true.
-Proof. unfold glob_keep_v. intros H. apply andb_prop in H. exact (proj1 H). Qed.
+Lemma glob_keep_weaker pattern show p : glob_keep pattern show p = true -> glob_keep_last show p = true.
+Proof. unfold glob_keep. intros H. apply andb_prop in H. exact (proj1 H). Qed.
 
-Example glob_variant_ex1 : glob_keep_v (s2l "*/*") false (s2l ".hdir/in.txt") = false.
+Example glob_keep_ex1 : glob_keep (s2l "*/*") false (s2l ".hdir/in.txt") = false.
 Proof. vm_compute. reflexivity. Qed.
-Example glob_variant_ex2 : glob_keep_v (s2l ".hdir/*") false (s2l ".hdir/in.txt") = true.
+Example glob_keep_ex2 : glob_keep (s2l ".hdir/*") false (s2l ".hdir/in.txt") = true.
 Proof. vm_compute. reflexivity. Qed.
-Example glob_variant_ex3 : glob_keep_v (s2l "./*/*") false (s2l "sub/x") = true.
+Example glob_keep_ex3 : glob_keep (s2l "./*/*") false (s2l "sub/x") = true.
 Proof. vm_compute. reflexivity. Qed.
-Example glob_variant_ex4 : glob_keep_v (s2l "sub/../*.txt") false (s2l "sub/../a.txt") = true.
+Example glob_keep_ex4 : glob_keep (s2l "sub/../*.txt") false (s2l "sub/../a.txt") = true.
 Proof. vm_compute. reflexivity. Qed.
 
-Print Assumptions range_at_ctx_agrees.
-Print Assumptions find_range_ctx_agrees.
 Print Assumptions find_range_ctx_text.
-Print Assumptions range_sel_v_never_aborts.
-Print Assumptions expand_brace_range_v_in_place.
-Print Assumptions range_sel_v_affixes.
-Print Assumptions range_variant_example.
-Print Assumptions glob_keep_v_no_hidden_dir.
-Print Assumptions glob_keep_v_weaker.
-Print Assumptions glob_variant_ex1.
-Print Assumptions glob_variant_ex2.
-Print Assumptions glob_variant_ex3.
-Print Assumptions glob_variant_ex4.
+Print Assumptions range_sel_never_aborts.
+Print Assumptions expand_brace_range_in_place.
+Print Assumptions range_sel_affixes.
+Print Assumptions range_example.
+Print Assumptions glob_keep_no_hidden_dir.
+Print Assumptions glob_keep_weaker.
+Print Assumptions glob_keep_ex1.
+Print Assumptions glob_keep_ex2.
+Print Assumptions glob_keep_ex3.
+Print Assumptions glob_keep_ex4.
